@@ -88,7 +88,11 @@ func sortKeyRef(p value.Primary) string {
 		return "N"
 	}
 	if i := value.ToIntegerStrictly(p); !value.IsNull(i) {
-		return "#" + hc.EncF(float64(i.(*value.Integer).Raw()))
+		n := i.(*value.Integer).Raw()
+		if n > 1<<53 || n < -(1<<53) {
+			return "#i" + strconv.FormatInt(n, 10) // beyond 2^53 integers are compared exactly, not through float64
+		}
+		return "#" + hc.EncF(float64(n))
 	}
 	if f := value.ToFloat(p); !value.IsNull(f) {
 		if x := f.(*value.Float).Raw(); !math.IsNaN(x) {
@@ -128,8 +132,13 @@ const (
 	kText
 	kDate
 	kMixedNum // equal numbers in integer / float / string notation
+	kBigInt   // 64-bit integers above 2^53, closer together than the float64 spacing
+	kNumText  // typed numbers next to non-numeric strings (compared by the number's text), a consistent total order
 	nSortKinds
 )
+
+// the kinds of k1, k2 of the table in use
+var curSortKinds [2]int
 
 var mixedNum = [][]value.Primary{
 	{value.NewInteger(1), value.NewFloat(1.0), value.NewString("1"), value.NewString(" 1 "), value.NewString("1e0"), value.NewString("1.0")},
@@ -188,6 +197,24 @@ func sortVal(g *hc.Gen, kind int) value.Primary {
 		return value.NewNull()
 	}
 	switch kind {
+	case kBigInt:
+		base := []int64{9007199254740992, -9007199254740992, 4611686018427387904, 9223372036854775800, 9007199254740990}[g.Intn(5)]
+		v := base + int64(g.Intn(5))
+		if base < 0 {
+			v = base - int64(g.Intn(5))
+		}
+		if g.Intn(4) == 0 {
+			return value.NewString(strconv.FormatInt(v, 10))
+		}
+		return value.NewInteger(v)
+	case kNumText:
+		switch g.Intn(3) {
+		case 0:
+			return value.NewInteger(int64(1 + g.Intn(9)))
+		case 1:
+			return value.NewFloat([]float64{2.5, 7.5}[g.Intn(2)])
+		}
+		return value.NewString(g.Pick("-", "#N/A", "1a", "a", "zz", "B", " 1A "))
 	case kMixedNum:
 		grp := mixedNum[g.Intn(len(mixedNum))]
 		return grp[g.Intn(len(grp))]
@@ -402,6 +429,13 @@ type orderItem struct {
 	np   string // "", "f", "l"
 }
 
+func (it orderItem) colOrID() int {
+	if it.col < 0 {
+		return cK1
+	}
+	return it.col
+}
+
 func (it orderItem) sql() string {
 	s := "id"
 	if it.col >= 0 {
@@ -424,7 +458,7 @@ func (it orderItem) sql() string {
 // ---------- functions ----------
 
 var modelFns = []string{"row_number", "rank", "dense_rank", "cume_dist", "percent_rank", "ntile",
-	"first_value", "last_value", "nth_value", "lag", "lead", "cells", "count", "count_star", "listagg", "listaggd", "jsonagg"}
+	"first_value", "last_value", "nth_value", "lag", "lead", "cells", "count", "count_star", "listagg", "listaggd", "jsonagg", "jsonaggd"}
 var sqlAggs = []string{"COUNT", "SUM", "AVG", "MIN", "MAX", "MEDIAN", "STDEV", "STDEVP", "VAR", "VARP"}
 
 var tieSafe = map[string]bool{"rank": true, "dense_rank": true, "cume_dist": true, "percent_rank": true}
@@ -597,6 +631,8 @@ func (c caseSpec) callSQL() string {
 		return "LISTAGG(DISTINCT x, '|') " + c.overSQL()
 	case "jsonagg":
 		return "JSON_AGG(x) " + c.overSQL()
+	case "jsonaggd":
+		return "JSON_AGG(DISTINCT x) " + c.overSQL()
 	}
 	d := ""
 	if c.distinct {
@@ -630,6 +666,7 @@ func run(seed int64, n int, dir string, _ []string) {
 		nrows := []int{0, 1, 2, 3, 4, 5, 7, 9, 12, 16, 25, 40, 70, 120, 250, 400}[g.Intn(16)]
 		pkinds := [2]int{g.Intn(5), g.Intn(5)}
 		skinds := [2]int{g.Intn(nSortKinds), g.Intn(nSortKinds)}
+		curSortKinds = skinds
 		akind := []int{aInts, aInts, aLetters, aMixed}[g.Intn(4)]
 		rows := make([][]value.Primary, nrows)
 		for i := range rows {
@@ -655,6 +692,9 @@ func run(seed int64, n int, dir string, _ []string) {
 				{value.NewInteger(0), value.NewNull(), value.NewInteger(1), value.NewNull(), value.NewString("d")},
 				{value.NewInteger(0), value.NewNull(), value.NewInteger(2), value.NewNull(), value.NewString("e")},
 			}
+		}
+		if t < 2 {
+			curSortKinds = [2]int{kMixedNum, kInt} // the witness tables
 		}
 		if err := pr.DeclareTable("t", colNames, rows); err != nil {
 			lawCap(o, "analytic:declare_table_error", err.Error())
@@ -729,7 +769,7 @@ func genCase(g *hc.Gen, nrows, akind int) caseSpec {
 	default:
 		c.fn = "agg:" + sqlAggs[g.Intn(len(sqlAggs))]
 	}
-	if (c.fn == "cells" || c.fn == "listagg" || c.fn == "listaggd" || c.fn == "jsonagg") && akind == aMixed {
+	if (c.fn == "cells" || c.fn == "listagg" || c.fn == "listaggd" || c.fn == "jsonagg" || c.fn == "jsonaggd") && akind == aMixed {
 		c.fn = "count"
 	}
 	if strings.HasPrefix(c.fn, "agg:") && akind != aInts {
@@ -853,6 +893,53 @@ func runCase(g *hc.Gen, o *hc.Out, pr *hc.Proc, rows [][]value.Primary, c caseSp
 		}
 		for i := range order {
 			order[i] = intCell(hc.ViewCell(ov, i, 0))
+		}
+	}
+	// the ORDER BY inside OVER (...) on 64-bit integers must be exact, above 2^53 too
+	if c.hasOrder() && !src.derived {
+		allBig := true
+		for _, it := range c.items {
+			if it.col >= 0 && curSortKinds[it.col-cK1] != kBigInt {
+				allBig = false
+			}
+		}
+		if allBig {
+			less := func(a, b int) bool { // a strictly before b
+				for _, it := range c.items {
+					if it.col < 0 {
+						if a == b {
+							continue
+						}
+						return (a < b) != it.desc
+					}
+					va, vb := rows[a][it.col], rows[b][it.col]
+					na, nb := isNull(va), isNull(vb)
+					first := it.np == "f" || (it.np == "" && !it.desc)
+					switch {
+					case na && nb:
+						continue
+					case na:
+						return first
+					case nb:
+						return !first
+					}
+					ia := value.ToIntegerStrictly(va).(*value.Integer).Raw()
+					ib := value.ToIntegerStrictly(vb).(*value.Integer).Raw()
+					if ia == ib {
+						continue
+					}
+					return (ia < ib) != it.desc
+				}
+				return false
+			}
+			for i := 0; i+1 < len(order); i++ {
+				if less(order[i+1], order[i]) {
+					lawCap(o, "analytic:order_of_big_integers", replay(map[string]interface{}{"position": i, "ids": []int{order[i], order[i+1]},
+						"values": []string{hc.EncVal(rows[order[i]][c.items[0].colOrID()]), hc.EncVal(rows[order[i+1]][c.items[0].colOrID()])}}))
+					break
+				}
+			}
+			o.Count("law:order_of_big_integers")
 		}
 	}
 	keyIDs := map[string]int{}
@@ -1030,7 +1117,7 @@ func runCase(g *hc.Gen, o *hc.Out, pr *hc.Proc, rows [][]value.Primary, c caseSp
 						}
 					}
 					toks[id] = cellsTok(s, "|")
-				case "jsonagg":
+				case "jsonagg", "jsonaggd":
 					tok, ok := jsonCellsTok(hc.StrOf(or.r))
 					if !ok {
 						lawCap(o, "analytic:json_agg:other", replay(map[string]interface{}{"id": id, "got": hc.EncVal(or.r)}))
@@ -1061,7 +1148,13 @@ func runCase(g *hc.Gen, o *hc.Out, pr *hc.Proc, rows [][]value.Primary, c caseSp
 			o.Case(strings.Replace(op, "c17.dense_rank ", "c17.groups ", 1), impl)
 		}
 		// Analyze end to end: the model orders the rows and computes the partition keys itself
-		if !src.derived && (c.uniqueOrder() || !c.hasOrder()) && nrows <= 150 && g.Intn(2) == 0 {
+		pickFull := g.Intn(2) == 0
+		for _, it := range c.items {
+			if it.col >= 0 && (curSortKinds[it.col-cK1] == kBigInt || curSortKinds[it.col-cK1] == kNumText) {
+				pickFull = true // the model must order these rows itself
+			}
+		}
+		if !src.derived && (c.uniqueOrder() || !c.hasOrder()) && nrows <= 150 && pickFull {
 			a1, a2 := "-", "-"
 			if c.a1 != nil {
 				a1 = strconv.Itoa(*c.a1)
@@ -1961,7 +2054,11 @@ func groupedListAgg(g *hc.Gen, o *hc.Out, pr *hc.Proc, rows [][]value.Primary, c
 	if distinct {
 		d = "DISTINCT "
 	}
+	asJSON := g.Intn(3) == 0
 	sql := "SELECT LISTAGG(" + d + "x, '|')"
+	if asJSON {
+		sql = "SELECT JSON_AGG(" + d + "x)"
+	}
 	its := make([]string, len(items))
 	if len(items) > 0 {
 		ss := make([]string, len(items))
@@ -1994,7 +2091,11 @@ func groupedListAgg(g *hc.Gen, o *hc.Out, pr *hc.Proc, rows [][]value.Primary, c
 		flag = "1"
 	}
 	var sb strings.Builder
-	fmt.Fprintf(&sb, "c17.glistagg - - %s none %d %s", flag, len(items), itok)
+	opName := "c17.glistagg"
+	if asJSON {
+		opName = "c17.gjsonagg"
+	}
+	fmt.Fprintf(&sb, "%s - - %s none %d %s", opName, flag, len(items), itok)
 	for id := 0; id < nrows; id++ {
 		k := normRef(rows[id][pc])
 		kid, ok := keyIDs[k]
@@ -2015,9 +2116,17 @@ func groupedListAgg(g *hc.Gen, o *hc.Out, pr *hc.Proc, rows [][]value.Primary, c
 	toks := make([]string, v.RecordLen())
 	for i := range toks {
 		r := hc.ViewCell(v, i, 0)
-		if isNull(r) {
+		switch {
+		case asJSON:
+			tok, ok := jsonCellsTok(hc.StrOf(r))
+			if !ok {
+				lawCap(o, "analytic:json_agg:other", map[string]interface{}{"sql": sql, "table": tableText(rows), "got": hc.EncVal(r)})
+				return
+			}
+			toks[i] = tok
+		case isNull(r):
 			toks[i] = "[]"
-		} else {
+		default:
 			toks[i] = cellsTok("|"+hc.StrOf(r), "|")
 		}
 	}
@@ -2027,7 +2136,7 @@ func groupedListAgg(g *hc.Gen, o *hc.Out, pr *hc.Proc, rows [][]value.Primary, c
 	}
 	o.Case(sb.String(), impl)
 	o.Count("grouped_listagg")
-	o.NonTrivial(fmt.Sprintf("glistagg|d=%v|%s|groups<=%d", distinct, itok, sizeBand(len(keyIDs))))
+	o.NonTrivial(fmt.Sprintf("%s|d=%v|%s|groups<=%d", opName, distinct, itok, sizeBand(len(keyIDs))))
 }
 
 func intCell(p value.Primary) int {
